@@ -452,8 +452,8 @@ theorem decodeBlock_seal (o : Opts) (es : List KV) (hwf : ∀ e ∈ es, e.Wf) (h
     entries; the accepted entries are sorted; and the table cursor over what was written shows, for
     every finite program over keys, what the reference cursor over the accepted entries shows;
     `load` is the newest version not newer than the timestamp, or its tombstone.
-    (`Wf` / `Fits`: the fields fit the wire types and the `u32` offsets, which the size limits
-    guarantee.) -/
+    (`Wf` / `Fits`: the fields fit the wire types and the `u32` offsets — hypotheses of this
+    statement; they follow from the builders' limits: `Blue.Sst.sealed_side_conditions`.) -/
 theorem sst_builder_refines (o : SstOpts) (atts : List KV) (c : CBuilder) (sf : SB)
     (hcur : (SB.putAll o SB.init atts).2.cur = some c)
     (hf : (SB.putAll o SB.init atts).2.flush o
